@@ -72,7 +72,7 @@ def main(tier):
              "generated file, runs exactly the scripts the reference allows, and gives from-scratch contents after exit 0 "
              "(in particular it rebuilds after the user removed the file)",
         assumptions=["-j1, REDO_LOG=0", "two names, one default rule, one specific rule"],
-        budget_s=50 if tier == "quick" else 3000)
+        budget_s=900 if tier == "quick" else 6000)
 
 
 def replay(path):
